@@ -122,7 +122,7 @@ PROPS = {
               "dedup counts and profiler buffer equal its run alone.  True pre-emption between bytecodes, >2 threads and OS schedules are NOT covered.",
               note=_BOUNDED + "  The second thread runs concrete values (CrossHair state is per thread)."),
     "C17": _p("harness.c17",
-              "Generator bodies as vectors of <=4-5 codes (await item/const/task, Value, Value(None)) with "
+              "Generator bodies as vectors of <=4-5 codes (await item/const/task, Value, Value(None), Value(a future)) with "
               "symbolic values: list_of_generator, take_first(n) for all n incl. 0 followed by take_first(n2), "
               "consumption counter, documented manual iteration with repeated early-advance RuntimeError, exhausted "
               "generator keeps raising StopIteration."),
